@@ -118,4 +118,16 @@ def extra(ctx):
                                                 if r["op"] not in c05_scan.ORDER_FREE]
     except Exception as e:  # the translator already reported a failure
         cov["hash_scan_error"] = str(e)
-    return {"coverage": cov}
+    failures = []
+    # self-test of the experiment: in every case the observing processes/threads must really have iterated a
+    # std HashMap in >= 3 different orders; otherwise hash seeds are somehow fixed and the run shows nothing
+    stats = ctx["result"].get("stats", {})
+    ncases = stats.get("cases", 0)
+    sens = stats.get("selftest_cases_with_3plus_hash_orders", 0)
+    cov["selftest_cases_with_3plus_hash_orders"] = sens
+    if ncases and sens < ncases:
+        failures.append(f"cross-process experiment lost its sensitivity: only {sens} of {ncases} cases saw >= 3 "
+                        "distinct std::HashMap iteration orders among the observing processes")
+    if ncases and stats.get("child_failed", 0):
+        failures.append(f"{stats['child_failed']} child process(es) crashed or produced no observation")
+    return {"coverage": cov, "failures": failures}
